@@ -7,24 +7,43 @@ open Gen.ErrCodes
 
 def LoopKeyNe (a b : LoopRow) : Prop := ¬(a.cid = b.cid ∧ a.loopNum = b.loopNum)
 def ItemKeyNe (a b : ItemRow) : Prop := ¬(a.cid = b.cid ∧ a.name = b.name)
+def ValueKeyNe (a b : ValueRow) : Prop := ¬(a.cid = b.cid ∧ a.name = b.name ∧ a.rowNum = b.rowNum)
 def ScalarNe (a b : LoopRow) : Prop := ¬(a.cid = b.cid ∧ a.category = some [] ∧ b.category = some [])
 
-/-- the invariant of DESIGN.md: loop keys unique; each normalised item name once per container (so it belongs to exactly
-    one loop); at most one scalar loop per container, and its row counter never exceeds 1; every item belongs to an
-    existing loop; row numbers are positive -/
+/-- the invariant of DESIGN.md: keys of loop / loop_item / item_value unique (so each normalised item name occurs once per
+    container and belongs to exactly one loop); at most one scalar loop per container, and its row counter never exceeds 1;
+    foreign keys: every loop belongs to an existing container, every item to an existing loop, every value to an existing
+    item; row numbers are positive -/
 structure Inv (d : Db) : Prop where
   loopPK : d.loops.Pairwise LoopKeyNe
   itemPK : d.items.Pairwise ItemKeyNe
+  valuePK : d.values.Pairwise ValueKeyNe
   scalar1 : d.loops.Pairwise ScalarNe
   scalarRows : ∀ l ∈ d.loops, l.category = some [] → l.lastRowNum ≤ 1
   rowPos : ∀ v ∈ d.values, 0 < v.rowNum
+  loopFK : ∀ l ∈ d.loops, d.hasContainer l.cid = true
+  itemFK : ∀ i ∈ d.items, d.hasLoop i.cid i.loopNum = true
+  valueFK : ∀ v ∈ d.values, d.hasItem v.cid v.name = true
 
 theorem Inv.empty : Inv {} :=
-  ⟨List.Pairwise.nil, List.Pairwise.nil, List.Pairwise.nil, (fun l h => nomatch h), (fun v h => nomatch h)⟩
+  ⟨List.Pairwise.nil, List.Pairwise.nil, List.Pairwise.nil, List.Pairwise.nil, (fun l h => nomatch h), (fun v h => nomatch h),
+   (fun l h => nomatch h), (fun l h => nomatch h), (fun l h => nomatch h)⟩
 
-theorem Inv.congr {d d' : Db} (h : Inv d) (hl : d'.loops = d.loops) (hi : d'.items = d.items) (hv : d'.values = d.values) : Inv d' :=
-  ⟨by rw [hl]; exact h.loopPK, by rw [hi]; exact h.itemPK, by rw [hl]; exact h.scalar1, by rw [hl]; exact h.scalarRows,
-   by rw [hv]; exact h.rowPos⟩
+theorem hasLoop_iff (d : Db) (c n : Nat) : d.hasLoop c n = true ↔ ∃ l ∈ d.loops, l.cid = c ∧ l.loopNum = n := by
+  simp [Db.hasLoop, List.any_eq_true]
+theorem hasItem_iff (d : Db) (c : Nat) (k : Str) : d.hasItem c k = true ↔ ∃ i ∈ d.items, i.cid = c ∧ i.name = k := by
+  simp [Db.hasItem, List.any_eq_true]
+theorem hasContainer_iff (d : Db) (c : Nat) : d.hasContainer c = true ↔ ∃ r ∈ d.containers, r.id = c := by
+  simp [Db.hasContainer, List.any_eq_true]
+
+/-- statements that leave loop / loop_item / item_value alone and lose no container -/
+theorem Inv.congr {d d' : Db} (h : Inv d) (hl : d'.loops = d.loops) (hi : d'.items = d.items) (hv : d'.values = d.values)
+    (hc : ∀ id, d.hasContainer id = true → d'.hasContainer id = true) : Inv d' :=
+  ⟨by rw [hl]; exact h.loopPK, by rw [hi]; exact h.itemPK, by rw [hv]; exact h.valuePK, by rw [hl]; exact h.scalar1,
+   by rw [hl]; exact h.scalarRows, by rw [hv]; exact h.rowPos,
+   by rw [hl]; intro l hm; exact hc _ (h.loopFK l hm),
+   by rw [hi]; intro i hm; have := h.itemFK i hm; simp only [Db.hasLoop, hl] at this ⊢; exact this,
+   by rw [hv]; intro v hm; have := h.valueFK v hm; simp only [Db.hasItem, hi] at this ⊢; exact this⟩
 
 /-- unique loop keys in the form the atomicity lemmas use -/
 theorem Inv.toLoopPK {d : Db} (h : Inv d) : LoopPK d := by
@@ -46,48 +65,108 @@ theorem Inv.toLoopPK {d : Db} (h : Inv d) : LoopPK d := by
       simp [hnone]
     · exact ih this.2
 
--- ---- statements that only remove rows -----------------------------------------------------------------------------------
-
-theorem Inv.filter {d : Db} (h : Inv d) (pl : LoopRow → Bool) (pi : ItemRow → Bool) (pv : ValueRow → Bool) (d' : Db)
-    (hl : d'.loops = d.loops.filter pl) (hi : d'.items = d.items.filter pi) (hv : d'.values = d.values.filter pv) : Inv d' :=
-  ⟨by rw [hl]; exact h.loopPK.filter _, by rw [hi]; exact h.itemPK.filter _, by rw [hl]; exact h.scalar1.filter _,
-   by rw [hl]; intro l hm; exact h.scalarRows l (List.mem_filter.mp hm).1,
-   by rw [hv]; intro v hm; exact h.rowPos v (List.mem_filter.mp hm).1⟩
-
 theorem filter_true' {α} (l : List α) : l.filter (fun _ => true) = l := List.filter_eq_self.mpr (fun _ _ => rfl)
 
-theorem Inv.deleteItems {d : Db} (h : Inv d) (p : ItemRow → Bool) : Inv (d.deleteItems p) :=
-  h.filter (fun _ => true) _ _ _ (by simp [Db.deleteItems, filter_true']) rfl rfl
+-- ---- statements that only remove rows -----------------------------------------------------------------------------------
 
-theorem Inv.deleteLoops {d : Db} (h : Inv d) (p : LoopRow → Bool) : Inv (d.deleteLoops p) := by
-  unfold Db.deleteLoops
-  apply Inv.deleteItems
-  exact h.filter _ (fun _ => true) (fun _ => true) _ rfl (by simp [filter_true']) (by simp [filter_true'])
+/-- delete from item_value only -/
+theorem Inv.filterValues {d : Db} (h : Inv d) (pv : ValueRow → Bool) : Inv { d with values := d.values.filter pv } :=
+  ⟨h.loopPK, h.itemPK, h.valuePK.filter _, h.scalar1, h.scalarRows, fun v hm => h.rowPos v (List.mem_filter.mp hm).1,
+   h.loopFK, h.itemFK, fun v hm => h.valueFK v (List.mem_filter.mp hm).1⟩
+
+/-- the cascade from loop_item to item_value keeps the values of the surviving items, with their items -/
+theorem cascade_values (items : List ItemRow) (values : List ValueRow) (q : ItemRow → Bool)
+    (hfk : ∀ v ∈ values, ∃ i ∈ items, i.cid = v.cid ∧ i.name = v.name) :
+    ∀ v ∈ values.filter (fun v => !(items.filter q).any (fun i => i.cid == v.cid && i.name == v.name)),
+      ∃ i ∈ items.filter (fun i => !q i), i.cid = v.cid ∧ i.name = v.name := by
+  intro v hm
+  obtain ⟨hv, hkeep⟩ := List.mem_filter.mp hm
+  obtain ⟨i, hi, h1, h2⟩ := hfk v hv
+  refine ⟨i, ?_, h1, h2⟩
+  rw [List.mem_filter]
+  refine ⟨hi, ?_⟩
+  cases hp : q i with
+  | false => rfl
+  | true =>
+    exfalso
+    have : (items.filter q).any (fun i => i.cid == v.cid && i.name == v.name) = true := by
+      rw [List.any_eq_true]
+      exact ⟨i, List.mem_filter.mpr ⟨hi, hp⟩, by simp [h1, h2]⟩
+    simp [this] at hkeep
+
+theorem Inv.deleteItems {d : Db} (h : Inv d) (p : ItemRow → Bool) : Inv (d.deleteItems p) := by
+  unfold Db.deleteItems
+  refine ⟨h.loopPK, h.itemPK.filter _, h.valuePK.filter _, h.scalar1, h.scalarRows,
+    fun v hm => h.rowPos v (List.mem_filter.mp hm).1, h.loopFK, fun i hm => h.itemFK i (List.mem_filter.mp hm).1, ?_⟩
+  intro v hm
+  rw [hasItem_iff]
+  exact cascade_values d.items d.values p (fun v hv => (hasItem_iff d _ _).mp (h.valueFK v hv)) v hm
+
+/-- delete from loop (cascading to loop_item and item_value), possibly together with container rows none of the
+    surviving loops refers to -/
+theorem Inv.deleteLoopsWith {d : Db} (h : Inv d) (p : LoopRow → Bool) (cs : List ContainerRow) (bs : List BlockRow) (fs : List FrameRow)
+    (hcs : ∀ l ∈ d.loops, p l = false → cs.any (fun c => c.id == l.cid) = true) :
+    Inv (({ d with containers := cs, blocks := bs, frames := fs } : Db).deleteLoops p) := by
+  unfold Db.deleteLoops Db.deleteItems
+  refine ⟨h.loopPK.filter _, h.itemPK.filter _, h.valuePK.filter _, h.scalar1.filter _,
+    fun l hm => h.scalarRows l (List.mem_filter.mp hm).1, fun v hm => h.rowPos v (List.mem_filter.mp hm).1, ?_, ?_, ?_⟩
+  · intro l hm
+    obtain ⟨hl, hp⟩ := List.mem_filter.mp hm
+    exact hcs l hl (by simpa using hp)
+  · intro i hm
+    obtain ⟨hi, hkeep⟩ := List.mem_filter.mp hm
+    obtain ⟨l, hl, h1, h2⟩ := (hasLoop_iff d _ _).mp (h.itemFK i hi)
+    rw [hasLoop_iff]
+    refine ⟨l, ?_, h1, h2⟩
+    show l ∈ d.loops.filter (fun l => !p l)
+    rw [List.mem_filter]
+    refine ⟨hl, ?_⟩
+    cases hp : p l with
+    | false => rfl
+    | true =>
+      exfalso
+      have : (d.loops.filter p).any (fun l => l.cid == i.cid && l.loopNum == i.loopNum) = true := by
+        rw [List.any_eq_true]
+        exact ⟨l, List.mem_filter.mpr ⟨hl, hp⟩, by simp [h1, h2]⟩
+      simp [this] at hkeep
+  · intro v hm
+    rw [hasItem_iff]
+    exact cascade_values d.items d.values _ (fun v hv => (hasItem_iff d _ _).mp (h.valueFK v hv)) v hm
+
+theorem Inv.deleteLoops {d : Db} (h : Inv d) (p : LoopRow → Bool) : Inv (d.deleteLoops p) :=
+  h.deleteLoopsWith p d.containers d.blocks d.frames (fun l hl _ => h.loopFK l hl)
 
 theorem Inv.deleteContainer {d : Db} (h : Inv d) (id : Nat) : Inv (d.deleteContainer id).1 := by
   unfold Db.deleteContainer
   simp only []
   split
   · exact h
-  · apply Inv.deleteLoops
-    exact h.congr rfl rfl rfl
+  · apply h.deleteLoopsWith
+    intro l hl hp
+    obtain ⟨r, hr, hid⟩ := (hasContainer_iff d _).mp (h.loopFK l hl)
+    rw [List.any_eq_true]
+    refine ⟨r, List.mem_filter.mpr ⟨hr, ?_⟩, by simp [hid]⟩
+    have : l.cid ≠ id := by simpa using hp
+    simp [hid, this]
 
 theorem Inv.removeItem {d : Db} (h : Inv d) (cid : Nat) (k : Str) : Inv (d.removeItem cid k) := h.deleteItems _
 theorem Inv.destroyLoop {d : Db} (h : Inv d) (cid ln : Nat) : Inv (d.destroyLoop cid ln).1 := h.deleteLoops _
 theorem Inv.prune {d : Db} (h : Inv d) (cid : Nat) : Inv (d.prune cid) := h.deleteLoops _
-theorem Inv.removePacket {d : Db} (h : Inv d) (cid ln row : Nat) : Inv (d.removePacket cid ln row) :=
-  h.filter (fun _ => true) (fun _ => true) _ _ (by simp [Db.removePacket, filter_true']) (by simp [Db.removePacket, filter_true']) rfl
+theorem Inv.removePacket {d : Db} (h : Inv d) (cid ln row : Nat) : Inv (d.removePacket cid ln row) := h.filterValues _
 
 -- ---- inserts ---------------------------------------------------------------------------------------------------------------
 
-theorem Inv.insertContainer {d : Db} (h : Inv d) : Inv d.insertContainer.1 := h.congr rfl rfl rfl
+theorem Inv.insertContainer {d : Db} (h : Inv d) : Inv d.insertContainer.1 :=
+  h.congr rfl rfl rfl (fun id hid => by
+    obtain ⟨r, hr, he⟩ := (hasContainer_iff d id).mp hid
+    exact (hasContainer_iff _ id).mpr ⟨r, List.mem_append_left _ hr, he⟩)
 
 theorem Inv.insertBlock {d d' : Db} (h : Inv d) (cid : Nat) (k o : Str) (he : d.insertBlock cid k o = some d') : Inv d' := by
   unfold Db.insertBlock at he
   split at he; · cases he
   split at he; · cases he
   split at he; · cases he
-  cases he; exact h.congr rfl rfl rfl
+  cases he; exact h.congr rfl rfl rfl (fun _ hid => hid)
 
 theorem Inv.insertFrame {d d' : Db} (h : Inv d) (cid par : Nat) (k o : Str) (he : d.insertFrame cid par k o = some d') : Inv d' := by
   unfold Db.insertFrame at he
@@ -96,7 +175,7 @@ theorem Inv.insertFrame {d d' : Db} (h : Inv d) (cid par : Nat) (k o : Str) (he 
   split at he; · cases he
   split at he; · cases he
   split at he; · cases he
-  cases he; exact h.congr rfl rfl rfl
+  cases he; exact h.congr rfl rfl rfl (fun _ hid => hid)
 
 theorem pairwise_append_single {α} {R : α → α → Prop} {l : List α} {x : α} (h : l.Pairwise R) (hx : ∀ a ∈ l, R a x) :
     (l ++ [x]).Pairwise R := by
@@ -113,7 +192,14 @@ theorem Inv.insertLoopUnnumbered {d d' : Db} (h : Inv d) (cid : Nat) (cat : Opti
   split at he; · cases he
   rename_i hfresh
   cases he
-  refine ⟨?_, h.itemPK, ?_, ?_, h.rowPos⟩
+  have hcont : ∀ id, d.hasContainer id = true →
+      (d.containers.map (fun r => if r.id == cid then { r with nextLoopNum := r.nextLoopNum + 1 } else r)).any (fun c => c.id == id) = true := by
+    intro id hid
+    obtain ⟨r, hr, hre⟩ := (hasContainer_iff d id).mp hid
+    rw [List.any_eq_true]
+    refine ⟨_, List.mem_map.mpr ⟨r, hr, rfl⟩, ?_⟩
+    split <;> simp [hre]
+  refine ⟨?_, h.itemPK, h.valuePK, ?_, ?_, h.rowPos, ?_, ?_, h.valueFK⟩
   · apply pairwise_append_single h.loopPK
     intro a ha ⟨h1, h2⟩
     apply hfresh
@@ -129,60 +215,123 @@ theorem Inv.insertLoopUnnumbered {d d' : Db} (h : Inv d) (cid : Nat) (cat : Opti
     rcases List.mem_append.mp hl with hl | hl
     · exact h.scalarRows l hl
     · simp at hl; subst hl; intro _; simp
+  · intro l hl
+    rcases List.mem_append.mp hl with hl | hl
+    · exact hcont _ (h.loopFK l hl)
+    · simp at hl; subst hl
+      have hmem := List.mem_of_find?_eq_some hc
+      have hkey := List.find?_some hc
+      exact hcont cid ((hasContainer_iff d cid).mpr ⟨c, hmem, by simpa using hkey⟩)
+  · intro i hi
+    obtain ⟨l, hl, h1, h2⟩ := (hasLoop_iff d _ _).mp (h.itemFK i hi)
+    exact (hasLoop_iff _ _ _).mpr ⟨l, List.mem_append_left _ hl, h1, h2⟩
 
 theorem Inv.insertItem {d d' : Db} (h : Inv d) (cid : Nat) (k o : Str) (ln : Nat) (he : d.insertItem cid k o ln = some d') : Inv d' := by
   unfold Db.insertItem at he
   split at he; · cases he
   rename_i hfresh
   split at he; · cases he
+  rename_i hloop
   cases he
-  refine ⟨h.loopPK, ?_, h.scalar1, h.scalarRows, h.rowPos⟩
-  apply pairwise_append_single h.itemPK
-  intro a ha ⟨h1, h2⟩
-  apply hfresh
-  simp only [Db.hasItem, List.any_eq_true]
-  exact ⟨a, ha, by simp [h1, h2]⟩
+  refine ⟨h.loopPK, ?_, h.valuePK, h.scalar1, h.scalarRows, h.rowPos, h.loopFK, ?_, ?_⟩
+  · apply pairwise_append_single h.itemPK
+    intro a ha ⟨h1, h2⟩
+    apply hfresh
+    simp only [Db.hasItem, List.any_eq_true]
+    exact ⟨a, ha, by simp [h1, h2]⟩
+  · intro i hi
+    rcases List.mem_append.mp hi with hi | hi
+    · exact h.itemFK i hi
+    · simp at hi; subst hi
+      have : d.hasLoop cid ln = true := by simpa using hloop
+      exact this
+  · intro v hv
+    obtain ⟨i, hi, h1, h2⟩ := (hasItem_iff d _ _).mp (h.valueFK v hv)
+    exact (hasItem_iff _ _ _).mpr ⟨i, List.mem_append_left _ hi, h1, h2⟩
 
 theorem Inv.insertValue {d d' : Db} (h : Inv d) (cid : Nat) (k : Str) (row : Nat) (v : V) (he : d.insertValue cid k row v = some d') : Inv d' := by
   unfold Db.insertValue at he
   split at he; · cases he
+  rename_i hfresh
   split at he; · cases he
   rename_i hrow
   split at he; · cases he
+  rename_i hitem
   cases he
-  refine ⟨h.loopPK, h.itemPK, h.scalar1, h.scalarRows, ?_⟩
-  intro w hw
-  rcases List.mem_append.mp hw with hw | hw
-  · exact h.rowPos w hw
-  · simp at hw; subst hw
-    simp at hrow; exact Nat.pos_of_ne_zero hrow
+  refine ⟨h.loopPK, h.itemPK, ?_, h.scalar1, h.scalarRows, ?_, h.loopFK, h.itemFK, ?_⟩
+  · apply pairwise_append_single h.valuePK
+    intro a ha ⟨h1, h2, h3⟩
+    apply hfresh
+    simp only [Db.hasValue, List.any_eq_true]
+    exact ⟨a, ha, by simp [h1, h2, h3]⟩
+  · intro w hw
+    rcases List.mem_append.mp hw with hw | hw
+    · exact h.rowPos w hw
+    · simp at hw; subst hw
+      simp at hrow; exact Nat.pos_of_ne_zero hrow
+  · intro w hw
+    rcases List.mem_append.mp hw with hw | hw
+    · exact h.valueFK w hw
+    · simp at hw; subst hw
+      have : d.hasItem cid k = true := by simpa using hitem
+      exact this
 
 theorem Inv.replaceValue {d d' : Db} (h : Inv d) (cid : Nat) (k : Str) (row : Nat) (v : V) (he : d.replaceValue cid k row v = some d') : Inv d' := by
   unfold Db.replaceValue at he
   split at he; · cases he
   rename_i hrow
   split at he; · cases he
+  rename_i hitem
   cases he
-  refine ⟨h.loopPK, h.itemPK, h.scalar1, h.scalarRows, ?_⟩
-  intro w hw
-  rcases List.mem_append.mp hw with hw | hw
-  · exact h.rowPos w (List.mem_filter.mp hw).1
-  · simp at hw; subst hw
-    simp at hrow; exact Nat.pos_of_ne_zero hrow
-
+  refine ⟨h.loopPK, h.itemPK, ?_, h.scalar1, h.scalarRows, ?_, h.loopFK, h.itemFK, ?_⟩
+  · apply pairwise_append_single (h.valuePK.filter _)
+    intro a ha ⟨h1, h2, h3⟩
+    have := (List.mem_filter.mp ha).2
+    simp [h1, h2, h3] at this
+  · intro w hw
+    rcases List.mem_append.mp hw with hw | hw
+    · exact h.rowPos w (List.mem_filter.mp hw).1
+    · simp at hw; subst hw
+      simp at hrow; exact Nat.pos_of_ne_zero hrow
+  · intro w hw
+    rcases List.mem_append.mp hw with hw | hw
+    · exact h.valueFK w (List.mem_filter.mp hw).1
+    · simp at hw; subst hw
+      have : d.hasItem cid k = true := by simpa using hitem
+      exact this
 
 -- ---- updates of the loop table -------------------------------------------------------------------------------------------
 
+theorem any_map_key (ls : List LoopRow) (f : LoopRow → LoopRow) (hk : ∀ l, (f l).cid = l.cid ∧ (f l).loopNum = l.loopNum) (c n : Nat) :
+    (ls.map f).any (fun l => l.cid == c && l.loopNum == n) = ls.any (fun l => l.cid == c && l.loopNum == n) := by
+  induction ls with
+  | nil => rfl
+  | cons a as ih => simp only [List.map_cons, List.any_cons, ih, (hk a).1, (hk a).2]
+
+/-- the foreign keys survive an update of loop rows that keeps their keys -/
+theorem Inv.fk_mapLoops {d : Db} (h : Inv d) (f : LoopRow → LoopRow) (hk : ∀ l, (f l).cid = l.cid ∧ (f l).loopNum = l.loopNum) :
+    (∀ l ∈ d.loops.map f, d.hasContainer l.cid = true) ∧
+    (∀ i ∈ d.items, (d.loops.map f).any (fun l => l.cid == i.cid && l.loopNum == i.loopNum) = true) := by
+  constructor
+  · intro l hm
+    obtain ⟨a, ha, rfl⟩ := List.mem_map.mp hm
+    rw [(hk a).1]; exact h.loopFK a ha
+  · intro i hi
+    rw [any_map_key _ f hk]
+    exact h.itemFK i hi
+
 theorem Inv.mapLoops {d : Db} (h : Inv d) (f : LoopRow → LoopRow) (hk : ∀ l, (f l).cid = l.cid ∧ (f l).loopNum = l.loopNum ∧ (f l).category = l.category)
-    (hr : ∀ l ∈ d.loops, (f l).category = some [] → (f l).lastRowNum ≤ 1) (d' : Db)
-    (hl : d'.loops = d.loops.map f) (hi : d'.items = d.items) (hv : d'.values = d.values) : Inv d' := by
-  refine ⟨?_, by rw [hi]; exact h.itemPK, ?_, ?_, by rw [hv]; exact h.rowPos⟩
-  · rw [hl, List.pairwise_map]
+    (hr : ∀ l ∈ d.loops, (f l).category = some [] → (f l).lastRowNum ≤ 1) :
+    Inv { d with loops := d.loops.map f } := by
+  have hfk := h.fk_mapLoops f (fun l => ⟨(hk l).1, (hk l).2.1⟩)
+  refine ⟨?_, h.itemPK, h.valuePK, ?_, ?_, h.rowPos, hfk.1, hfk.2, h.valueFK⟩
+  · show (d.loops.map f).Pairwise LoopKeyNe
+    rw [List.pairwise_map]
     exact h.loopPK.imp (fun {a b} hab ⟨h1, h2⟩ => hab ⟨by rw [← (hk a).1, ← (hk b).1, h1], by rw [← (hk a).2.1, ← (hk b).2.1, h2]⟩)
-  · rw [hl, List.pairwise_map]
+  · show (d.loops.map f).Pairwise ScalarNe
+    rw [List.pairwise_map]
     exact h.scalar1.imp (fun {a b} hab ⟨h1, h2, h3⟩ => hab ⟨by rw [← (hk a).1, ← (hk b).1, h1], by rw [← (hk a).2.2, h2], by rw [← (hk b).2.2, h3]⟩)
-  · rw [hl]
-    intro l hm
+  · intro l hm
     obtain ⟨a, ha, rfl⟩ := List.mem_map.mp hm
     exact hr a ha
 
@@ -207,9 +356,6 @@ theorem Inv.bumpRowNum {d d' : Db} (h : Inv d) (cid ln : Nat) (he : d.bumpRowNum
       omega
     · simp only [hm, if_false] at hc ⊢
       exact h.scalarRows l hl hc
-  · rfl
-  · rfl
-  · rfl
 
 theorem Inv.resetRowNum {d : Db} (h : Inv d) (cid ln : Nat) : Inv (d.resetRowNum cid ln) := by
   apply h.mapLoops (fun l => if l.cid == cid && l.loopNum == ln then { l with lastRowNum := 0 } else l)
@@ -218,9 +364,6 @@ theorem Inv.resetRowNum {d : Db} (h : Inv d) (cid ln : Nat) : Inv (d.resetRowNum
     split
     · simp
     · rename_i hm; simp only [hm] at hc; exact h.scalarRows l hl hc
-  · rfl
-  · rfl
-  · rfl
 
 theorem mem_insertNat (x y : Nat) : ∀ l : List Nat, y ∈ Db.insertNat x l → y = x ∨ y ∈ l
   | [], h => by simp [Db.insertNat] at h; exact Or.inl h
@@ -237,6 +380,40 @@ theorem mem_insertNat (x y : Nat) : ∀ l : List Nat, y ∈ Db.insertNat x l →
         · rcases mem_insertNat x y zs h with h | h
           · exact Or.inl h
           · exact Or.inr (List.mem_cons_of_mem _ h)
+
+theorem insertNat_sorted (x : Nat) : ∀ l : List Nat, l.Pairwise (· < ·) → (Db.insertNat x l).Pairwise (· < ·)
+  | [], _ => by simp [Db.insertNat]
+  | z :: zs, h => by
+    unfold Db.insertNat
+    rw [List.pairwise_cons] at h
+    split
+    · rename_i hlt
+      rw [List.pairwise_cons]
+      refine ⟨?_, List.pairwise_cons.mpr h⟩
+      intro b hb
+      rcases List.mem_cons.mp hb with rfl | hb
+      · exact hlt
+      · exact Nat.lt_trans hlt (h.1 b hb)
+    · split
+      · exact List.pairwise_cons.mpr h
+      · rename_i hnlt hne
+        rw [List.pairwise_cons]
+        refine ⟨?_, insertNat_sorted x zs h.2⟩
+        intro b hb
+        rcases mem_insertNat x b zs hb with rfl | hb
+        · have : ¬ (b = z) := by simpa using hne
+          omega
+        · exact h.1 b hb
+
+theorem loopRows_sorted (d : Db) (cid ln : Nat) : (d.loopRows cid ln).Pairwise (· < ·) := by
+  unfold Db.loopRows
+  have : ∀ (vs : List ValueRow) (acc : List Nat), acc.Pairwise (· < ·) →
+      (vs.foldl (fun acc v => Db.insertNat v.rowNum acc) acc).Pairwise (· < ·) := by
+    intro vs
+    induction vs with
+    | nil => intro acc ha; exact ha
+    | cons v vs ih => intro acc ha; exact ih _ (insertNat_sorted _ _ ha)
+  exact this _ [] List.Pairwise.nil
 
 theorem loopRows_pos {d : Db} (h : Inv d) (cid ln : Nat) : ∀ r ∈ d.loopRows cid ln, 0 < r := by
   unfold Db.loopRows
@@ -259,14 +436,37 @@ theorem Inv.setAllValues {d : Db} (h : Inv d) (cid : Nat) (k : Str) (v : V) : In
   unfold Db.setAllValues
   split
   · exact h
-  · rename_i ln _
-    refine ⟨h.loopPK, h.itemPK, h.scalar1, h.scalarRows, ?_⟩
-    intro w hw
-    rcases List.mem_append.mp hw with hw | hw
-    · exact h.rowPos w (List.mem_filter.mp hw).1
-    · obtain ⟨r, hr, rfl⟩ := List.mem_map.mp hw
-      exact loopRows_pos h cid ln r hr
-
+  · rename_i ln hlo
+    have hitem : d.hasItem cid k = true := by
+      unfold Db.loopOfItem at hlo
+      cases hf : d.items.find? (fun i => i.cid == cid && i.name == k) with
+      | none => simp [hf] at hlo
+      | some i =>
+        have hmem := List.mem_of_find?_eq_some hf
+        have hkey := List.find?_some hf
+        simp at hkey
+        exact (hasItem_iff d cid k).mpr ⟨i, hmem, hkey.1, hkey.2⟩
+    refine ⟨h.loopPK, h.itemPK, ?_, h.scalar1, h.scalarRows, ?_, h.loopFK, h.itemFK, ?_⟩
+    · show (d.values.filter _ ++ (d.loopRows cid ln).map _).Pairwise ValueKeyNe
+      rw [List.pairwise_append]
+      refine ⟨h.valuePK.filter _, ?_, ?_⟩
+      · rw [List.pairwise_map]
+        exact (loopRows_sorted d cid ln).imp (fun {a b} hab ⟨_, _, h3⟩ => by simp only [] at h3; omega)
+      · intro a ha b hb ⟨h1, h2, h3⟩
+        obtain ⟨r, hr, rfl⟩ := List.mem_map.mp hb
+        have := (List.mem_filter.mp ha).2
+        simp only [] at h1 h2 h3
+        simp [h1, h2, h3, hr] at this
+    · intro w hw
+      rcases List.mem_append.mp hw with hw | hw
+      · exact h.rowPos w (List.mem_filter.mp hw).1
+      · obtain ⟨r, hr, rfl⟩ := List.mem_map.mp hw
+        exact loopRows_pos h cid ln r hr
+    · intro w hw
+      rcases List.mem_append.mp hw with hw | hw
+      · exact h.valueFK w (List.mem_filter.mp hw).1
+      · obtain ⟨r, hr, rfl⟩ := List.mem_map.mp hw
+        exact hitem
 
 theorem loopKey_unique : ∀ (ls : List LoopRow), ls.Pairwise LoopKeyNe → ∀ a ∈ ls, ∀ b ∈ ls, a.cid = b.cid → a.loopNum = b.loopNum → a = b
   | [], _, a, ha, _, _, _, _ => nomatch ha
@@ -302,7 +502,8 @@ theorem Inv.setCategory {d d' : Db} (h : Inv d) (cid ln : Nat) (cat : Option Str
     let f : LoopRow → LoopRow := fun l => if l.cid == cid && l.loopNum == ln then { l with category := cat } else l
     have hfk : ∀ l, (f l).cid = l.cid ∧ (f l).loopNum = l.loopNum ∧ (f l).lastRowNum = l.lastRowNum := by
       intro l; simp only [f]; split <;> exact ⟨rfl, rfl, rfl⟩
-    refine ⟨?_, h.itemPK, ?_, ?_, h.rowPos⟩
+    have hfks := h.fk_mapLoops f (fun l => ⟨(hfk l).1, (hfk l).2.1⟩)
+    refine ⟨?_, h.itemPK, h.valuePK, ?_, ?_, h.rowPos, hfks.1, hfks.2, h.valueFK⟩
     · show (d.loops.map f).Pairwise LoopKeyNe
       rw [List.pairwise_map]
       exact h.loopPK.imp (fun {a b} hab ⟨h1, h2⟩ => hab ⟨by rw [← (hfk a).1, ← (hfk b).1, h1], by rw [← (hfk a).2.1, ← (hfk b).2.1, h2]⟩)
@@ -372,19 +573,21 @@ structure InvS (s : Store) : Prop where
   db : Inv s.db
   txn : ∀ d, s.txn = some d → Inv d
   saves : ∀ d ∈ s.saves, Inv d
+  /-- savepoints exist only inside a BEGIN transaction (the C uses SAVE only when sqlite3_get_autocommit() is 0) -/
+  txwf : s.txn = none → s.saves = []
 
-theorem InvS.empty : InvS {} := ⟨Inv.empty, (fun _ h => nomatch h), (fun _ h => nomatch h)⟩
+theorem InvS.empty : InvS {} := ⟨Inv.empty, (fun _ h => nomatch h), (fun _ h => nomatch h), (fun _ => rfl)⟩
 
-theorem InvS.setDb {s : Store} (h : InvS s) {d : Db} (hd : Inv d) : InvS { s with db := d } := ⟨hd, h.txn, h.saves⟩
+theorem InvS.setDb {s : Store} (h : InvS s) {d : Db} (hd : Inv d) : InvS { s with db := d } := ⟨hd, h.txn, h.saves, h.txwf⟩
 
 theorem InvS.begin {s s1 : Store} (h : InvS s) (hb : s.begin = some s1) : InvS s1 := by
   obtain ⟨_, rfl⟩ := begin_autocommit s s1 hb
-  exact ⟨h.db, fun d hd => by cases hd; exact h.db, h.saves⟩
+  exact ⟨h.db, fun d hd => by cases hd; exact h.db, h.saves, fun ht => nomatch ht⟩
 
 theorem InvS.commitD {s : Store} (h : InvS s) (s0 : Store) (h0 : InvS s0) : InvS (s.commit.getD s0) := by
   unfold Store.commit; split
   · exact h0
-  · exact ⟨h.db, (fun _ hd => nomatch hd), (fun _ hd => nomatch hd)⟩
+  · exact ⟨h.db, (fun _ hd => nomatch hd), (fun _ hd => nomatch hd), (fun _ => rfl)⟩
 
 theorem InvS.outermost {s : Store} (h : InvS s) : Inv s.outermost := by
   unfold Store.outermost
@@ -397,27 +600,35 @@ theorem InvS.outermost {s : Store} (h : InvS s) : Inv s.outermost := by
 theorem InvS.rollbackD {s : Store} (h : InvS s) (s0 : Store) (h0 : InvS s0) : InvS (s.rollback.getD s0) := by
   unfold Store.rollback; split
   · exact h0
-  · exact ⟨h.outermost, (fun _ hd => nomatch hd), (fun _ hd => nomatch hd)⟩
+  · exact ⟨h.outermost, (fun _ hd => nomatch hd), (fun _ hd => nomatch hd), (fun _ => rfl)⟩
 
-theorem InvS.save {s : Store} (h : InvS s) : InvS s.save :=
-  ⟨h.db, h.txn, fun d hd => by rcases List.mem_cons.mp hd with rfl | hd; exact h.db; exact h.saves d hd⟩
+theorem InvS.txn_of_not_autocommit {s : Store} (h : InvS s) (ha : s.autocommit = false) : ∃ d, s.txn = some d := by
+  cases ht : s.txn with
+  | some d => exact ⟨d, rfl⟩
+  | none => simp [Store.autocommit, ht, h.txwf ht] at ha
+
+theorem InvS.save {s : Store} (h : InvS s) (ha : s.autocommit = false) : InvS s.save := by
+  obtain ⟨d0, hd0⟩ := h.txn_of_not_autocommit ha
+  exact ⟨h.db, h.txn, fun d hd => by rcases List.mem_cons.mp hd with rfl | hd; exact h.db; exact h.saves d hd,
+    fun ht => by simp [Store.save, hd0] at ht⟩
 
 theorem InvS.releaseD {s : Store} (h : InvS s) : InvS (s.release.getD s) := by
   unfold Store.release; split
   · exact h
   · rename_i d r hs
-    exact ⟨h.db, h.txn, fun d' hd' => h.saves d' (by rw [hs]; exact List.mem_cons_of_mem _ hd')⟩
+    exact ⟨h.db, h.txn, fun d' hd' => h.saves d' (by rw [hs]; exact List.mem_cons_of_mem _ hd'),
+      fun ht => by have := h.txwf ht; rw [hs] at this; cases this⟩
 
 theorem InvS.rollbackToD {s : Store} (h : InvS s) : InvS (s.rollbackTo.getD s) := by
   unfold Store.rollbackTo; split
   · exact h
   · rename_i d r hs
-    exact ⟨h.saves d (by rw [hs]; exact List.mem_cons_self), h.txn, h.saves⟩
+    exact ⟨h.saves d (by rw [hs]; exact List.mem_cons_self), h.txn, h.saves, h.txwf⟩
 
 theorem InvS.beginNest {s : Store} (h : InvS s) : InvS s.beginNest.1 := by
   unfold Store.beginNest; split
-  · exact ⟨h.db, fun d hd => by cases hd; exact h.db, h.saves⟩
-  · exact h.save
+  · exact ⟨h.db, fun d hd => by cases hd; exact h.db, h.saves, fun ht => nomatch ht⟩
+  · rename_i ha; exact h.save (by simpa using ha)
 
 theorem InvS.commitNest {s : Store} (h : InvS s) (top : Bool) : InvS (s.commitNest top) := by
   unfold Store.commitNest; split
@@ -616,22 +827,26 @@ theorem updateValues_inv : ∀ (p : List (Str × V)) (d d' : Db) (it : Iter), In
 theorem updatePacket_invS {s : Store} (h : InvS s) (it : Iter) (p : List (Str × V)) : InvS (updatePacket s it p).1 := by
   unfold updatePacket
   split; · exact h
+  rename_i ha
+  have hsv := h.save (by simpa using ha)
   split; · exact h
   simp only []
   split
   · rename_i d2 hu
-    exact (h.save.setDb (updateValues_inv p _ d2 it h.save.db hu)).releaseD
-  · exact h.save.rollbackToD
+    exact (hsv.setDb (updateValues_inv p _ d2 it hsv.db hu)).releaseD
+  · exact hsv.rollbackToD
 
 theorem removePacket_invS {s : Store} (h : InvS s) (it : Iter) : InvS (removePacket s it).1 := by
   unfold removePacket
   split; · exact h
+  rename_i ha
+  have hsv := h.save (by simpa using ha)
   split; · exact h
   simp only []
-  refine (h.save.setDb ?_).releaseD
+  refine (hsv.setDb ?_).releaseD
   split
-  · exact (h.save.db.removePacket _ _ _).resetRowNum _ _
-  · exact h.save.db.removePacket _ _ _
+  · exact (hsv.db.removePacket _ _ _).resetRowNum _ _
+  · exact hsv.db.removePacket _ _ _
 
 theorem closeIter_invS {s : Store} (h : InvS s) : InvS (closeIter s).1 := by
   unfold closeIter
